@@ -19,6 +19,7 @@ structure HErr where
   stoppedAfterRedirects : Bool  -- the url error's text matches `stopped after \d+ redirects\z`
   unknownAuthority : Bool       -- the url error wraps `x509.UnknownAuthorityError`
   isCanceled : Bool             -- `errors.Is(err, context.Canceled)`
+  isDeadline : Bool := false    -- `errors.Is(err, context.DeadlineExceeded)` (net/http's own time-outs report this): not an abort condition
 deriving Repr, DecidableEq, Inhabited
 
 /-- the `Retry-After` header as `DelayFunc` sees it -/
